@@ -228,8 +228,8 @@ theorem stepRaw_RE {s : SeqState} (hd : DevOk s.dev) (hde : DevOkE s.dev) (hi : 
               split
               · exact addChannel_SX hi (hfc _) (hfe _)
               · split
-                · exact SX.trans (addChannel_SX hi (hfc _) (hfe _))
-                    (RE_targetCore (addChannel_SG hi (hfc _)).1 _ _)
+                · exact RX_orRollback hi (SX.trans (addChannel_SX hi (hfc _) (hfe _))
+                    (RE_targetCore (addChannel_SG hi (hfc _)).1 _ _))
                 · exact addChannel_SX hi (hfc _) (hfe _)
   | configDetMap dmmId maxW sumW =>
     simp only [stepRaw]
